@@ -111,8 +111,16 @@ fn mutate<F: FnMut(&[u8]) -> Result<bool, String>>(
 	st: &mut Stats, rng: &mut Rng, step: &str, what: &str, bytes: &[u8], k: usize, mut f: F,
 ) {
 	let mut cases: Vec<Vec<u8>> = Vec::new();
+	if std::env::var("H_PERSIST_NO_CORRUPT").is_ok() {
+		return;
+	}
 	for p in positions(rng, bytes.len(), k) {
 		cases.push(bytes[..p].to_vec());
+		if what == "NetworkGraph" {
+			// truncations only: a corrupted element count makes NetworkGraph::read pre-allocate up to
+			// 100M channel entries (~150 GB), which aborts the process instead of returning an error
+			continue;
+		}
 		let mut b = bytes.to_vec();
 		b[p] ^= 1 << rng.below(8);
 		cases.push(b);
@@ -135,6 +143,7 @@ fn mutate<F: FnMut(&[u8]) -> Result<bool, String>>(
 				}
 			},
 			Err(_) => {
+				LAST_PANIC.lock().unwrap().clear();
 				st.corrupt_panics += 1;
 				if st.corrupt_notes.len() < 4 {
 					st.corrupt_notes.push(format!("[{}] {}: reading corrupted bytes PANICKED (len {}, first diff at {:?})", step, what, c.len(), first_diff(bytes, &c)));
@@ -573,13 +582,17 @@ fn main() {
 			} else {
 				String::new()
 			};
-			*LAST_PANIC.lock().unwrap() = format!("{} at {}", msg.chars().take(160).collect::<String>(), loc);
+			let mut g = LAST_PANIC.lock().unwrap();
+			if g.is_empty() {
+				*g = format!("{} at {}", msg.chars().take(160).collect::<String>(), loc);
+			}
 		}));
 	}
 	let mut rng = Rng(seed ^ 0x5eed_c12);
 	for i in 0..n {
 		let s = rng.next();
 		let r = panic::catch_unwind(AssertUnwindSafe(|| scenario(s, steps)));
+		let first_panic = std::mem::take(&mut *LAST_PANIC.lock().unwrap());
 		match r {
 			Ok((st, ops)) => {
 				let fails: Vec<String> = st.fails.iter().map(|f| format!("\"{}\"", f.replace('\\', "/").replace('"', "'"))).collect();
@@ -593,7 +606,7 @@ fn main() {
 				"R {{\"scenario\": {}, \"seed\": {}, \"ok\": false, \"fails\": [\"scenario panicked outside of a guarded read (LDK test-utility assertion or implementation panic): {}\"]}}",
 				i,
 				s,
-				LAST_PANIC.lock().unwrap().replace('\\', "/").replace('"', "'").replace('\n', " ")
+				first_panic.replace('\\', "/").replace('"', "'").replace('\n', " ")
 			),
 		}
 	}
